@@ -47,6 +47,9 @@ type Knobs struct {
 	NoDevice   map[string]bool `json:"noDevice,omitempty"`   // device never connects before the heal phase
 	CancelLate int             `json:"cancelLate,omitempty"` // steps between handler return and context cancellation
 	Persistent map[string]bool `json:"persistent,omitempty"`
+	// ValidateCaps: the topo Configurable asks for a capability check before every apply (the device reports the plugin's
+	// models plus one more)
+	ValidateCaps map[string]bool `json:"validateCaps,omitempty"`
 	StepCap    int             `json:"stepCap"`
 	RejectDev  bool            `json:"rejectDev,omitempty"` // devices refuse Sets containing DevRejectValue
 	// Observers: scenario positions of Sets / rollbacks whose transaction a second client watches by id (admin
